@@ -61,6 +61,19 @@ type verifU struct {
 	exec   ExecutorTx
 	addrs  []types.Address
 	coins  []types.CoinID
+	// staking extension (verifStaking): candidates and the heights at which
+	// frozen funds may sit; both feed the ledger oracle
+	cands     []types.Pubkey
+	ffHeights []uint64
+	// resting limit orders (verifOrders): ids whose escrow the ledger counts
+	orders []verifOrderRef
+}
+
+type verifOrderRef struct {
+	id           uint32
+	c0, c1       types.CoinID // the order buys c0 and holds its escrow in c1
+	owner        types.Address
+	wantBuy, esc *big.Int
 }
 
 const (
@@ -306,6 +319,36 @@ func verifLedger(u *verifU, c types.CoinID) *big.Int {
 			sum.Add(sum, r)
 		}
 	}
+	for _, o := range u.orders {
+		if o.c1 == c {
+			_, esc := u.st.SwapV2.VerifOrder(o.c0, o.c1, o.id)
+			sum.Add(sum, esc)
+		}
+	}
+	for _, pk := range u.cands {
+		for _, h := range u.st.Candidates.VerifStakes(pk) {
+			if h.Coin == c {
+				sum.Add(sum, h.Value)
+			}
+		}
+		for _, h := range u.st.Candidates.VerifUpdates(pk) {
+			if h.Coin == c {
+				sum.Add(sum, h.Value)
+			}
+		}
+		for _, a := range u.addrs {
+			if w := u.st.Waitlist.Get(a, pk, c); w != nil {
+				sum.Add(sum, w.Value)
+			}
+		}
+	}
+	for _, h := range u.ffHeights {
+		for _, it := range u.st.FrozenFunds.VerifLive(h) {
+			if it.Coin == c {
+				sum.Add(sum, it.Value)
+			}
+		}
+	}
 	if c.IsBaseCoin() {
 		for _, other := range u.coins {
 			if !other.IsBaseCoin() {
@@ -366,6 +409,17 @@ func verifSignBy(tx *Transaction, id int) []byte {
 
 func (u *verifU) deliver(raw []byte) Response {
 	return u.exec.RunTx(u.st, raw, u.pool, u.height, &sync.Map{}, 0, false)
+}
+
+// deliverCatch is deliver with the panic (if any) caught and handed back.
+func (u *verifU) deliverCatch(raw []byte) (resp Response, panicked bool, pv interface{}) {
+	defer func() {
+		if r := recover(); r != nil {
+			panicked, pv = true, r
+		}
+	}()
+	resp = u.deliver(raw)
+	return resp, false, nil
 }
 
 func (u *verifU) check(raw []byte) Response {
